@@ -7,7 +7,7 @@ Every random choice comes from one SplitMix64 state, so a trace is reproducible 
   own    operation whose (projected) output the property under check speaks about
 """
 
-GEN_VERSION = 19
+GEN_VERSION = 20
 
 MASK64 = (1 << 64) - 1
 
@@ -211,6 +211,21 @@ class Trace:
         elif op == "get_mut":
             self.emit("get_mut %s %s %d" % (reg, self.existing(reg), self.v()), role)
 
+    def chain(self, reg, role="bg"):
+        """once per trace: a node at (nearly) every length 0..=w along one address - the deepest path a trie can have"""
+        if getattr(self, "_chained", False):
+            return None
+        self._chained = True
+        r, w = self.rng, self.w
+        addr = r.bits(w)
+        for ln in range(w + 1):
+            if ln not in (w, w - 1) and r.chance(6):
+                continue
+            k = ((addr >> (w - ln)) if ln > 0 else 0, ln)
+            self.emit("insert %s %s %d" % (reg, self.u.fmt(k), 0 if reg == "S" else self.v()), role)
+            self.present[reg].add(k)
+        return addr
+
     def pred(self):
         r = self.rng
         return r.weighted([("mod 2 0", 3), ("mod 3 1", 2), ("lenle %d" % r.below(self.u.maxlen + 1), 3),
@@ -303,6 +318,15 @@ def gen_obs(ops_for, probe_kinds=("shape", "iter")):
 
 
 def ops_C02(t, reg):
+    if t.rng.chance(4):
+        addr = t.chain(reg)
+        if addr is not None:
+            w = t.w
+            for ln in (w, w - 1, w // 2, 1, 0):
+                q = t.u.fmt(((addr >> (w - ln)) if ln > 0 else 0, ln))
+                for op in (["get_lpm", "get_lpm_prefix"] if reg == "S" else ["get_lpm", "get_lpm_prefix", "get_lpm_mut"]):
+                    t.emit("%s %s %s%s" % (op, reg, q, (" %d" % t.v()) if op == "get_lpm_mut" else ""), "own")
+            return
     q = t.existing(reg) if t.rng.chance(50) else t.u.p()
     if reg == "S":
         t.emit("%s S %s" % (t.rng.pick(["get_lpm", "get_lpm_prefix"]), q), "own")
@@ -330,11 +354,29 @@ def ops_C03(t, reg):
 
 
 def ops_C04(t, reg):
+    if reg != "S" and t.rng.chance(6):
+        # clone / clone_from carry the counter along
+        src, dst = ("A", "B") if reg == "A" else ("B", "A")
+        t.emit("%s %s %s" % (t.rng.pick(["copy", "copy_from"]), src, dst), "own")
+        t.present[dst] = set(t.present[src])
+        t.emit("len %s" % dst, "own")
+        t.bg(dst, role="own")
+        t.emit("len %s" % dst, "own")
     t.bg(reg, role="own")
     t.emit("len %s" % reg, "own")
 
 
 def ops_C09(t, reg):
+    if t.rng.chance(4):
+        addr = t.chain(reg)
+        if addr is not None:
+            w = t.w
+            for ln in (w, w - 1, w // 2, 0):
+                q = t.u.fmt(((addr >> (w - ln)) if ln > 0 else 0, ln))
+                t.emit("%s %s %s" % ("cover_keys" if reg == "S" else "cover", reg, q), "own")
+                t.emit("%s %s %s" % ("get_spm_prefix" if reg == "S" else "get_spm", reg, q), "own")
+                t.emit("get_lpm_prefix %s %s" % (reg, q), "own")
+            return
     q = t.existing(reg) if t.rng.chance(50) else t.u.p()
     if reg == "S":
         op = t.rng.pick(["get_spm_prefix", "cover_keys", "get_lpm_prefix"])
@@ -396,6 +438,16 @@ def ops_C11(t, reg):
 
 def ops_C12(t, reg):
     r = t.rng
+    if r.chance(3):
+        addr = t.chain(reg)
+        if addr is not None:
+            w = t.w
+            full = t.u.fmt((addr, w))
+            for ln in (0, 1, w // 2, w - 1):
+                at = t.u.fmt(((addr >> (w - ln)) if ln > 0 else 0, ln))
+                t.emit("view %s at:%s lpm:%s : prefix" % (reg, at, full), "own")
+                t.emit("viewmut %s at:%s exact:%s : pv" % (reg, at, full), "own")
+            return
     st = view_script(t, reg, ["at", "left", "right"], 2) + view_script(t, reg, ["find", "exact", "lpm", "at"], 2)
     if not st:
         st = ["find:" + t.u.p()]
